@@ -40,6 +40,7 @@ func runC10(w *World, r *Report) {
 	c10Labels(w, r)
 	c10QueryKeys(w, r)
 	c10FullRead(w, r)
+	c10LabelsTotal(w, r)
 	c10TimeLossless(w, r)
 	c10SearchOrder(w, r)
 }
